@@ -21,7 +21,8 @@ import (
 
 func boot() {
 	hxnode.BootServices("dev")
-	service.InitRefundManager(nil, nil)
+	service.InitRefundManager(groupStub, groupStub)
+	service.InitRewardCalculator(nil, groupStub, groupStub)
 }
 
 func readLines(p string) []string {
@@ -84,6 +85,13 @@ func main() {
 	// deterministic 64-bit boundary lattice (refund / add-stake / UNSTAKE amounts) before anything random
 	latticeFamily(runS, true)
 	st := newGenStats()
+	runS("config dev")
+	runS("reset 100")
+	nrh := 400
+	if thorough {
+		nrh = 4000
+	}
+	refundHeightStream(r.Fork(), runS, nrh, st)
 	episodes := 60
 	if thorough {
 		episodes = 600
